@@ -659,6 +659,16 @@ class Gen:
         return Source("table", alias, name=t.name, cols=cols, base=t)
 
     def derived_source(self, depth):
+        if self.f.get("derived_setop") and self.f["setops"] and self.chance(self.f["derived_setop"]):
+            # a set operation as a derived table
+            saved = self._scope_tables
+            self._scope_tables = set()
+            try:
+                q = self.setop_query(as_source=True)
+            finally:
+                self._scope_tables = saved
+            self.tags.add("derived:set-operation")
+            return Source("derived", self.new_alias("d"), query=q, cols=[(n, ty, prov) for n, ty, prov in q.out])
         q = self.select(depth - 1, as_source=True)
         alias = self.new_alias("d")
         cols = [(n, ty, prov) for n, ty, prov in q.out]
@@ -1213,9 +1223,10 @@ class Gen:
                 return q
         return q
 
-    def setop_query(self):
+    def setop_query(self, as_source=False):
         f = self.f
         ncols = self.pick([1, 2])
+        names = [self.new_alias("u") for _ in range(ncols)] if as_source else [f"u{i + 1}" for i in range(ncols)]
         types = [self.pick([INT, INT, TEXT]) for _ in range(ncols)]
         ops = ["UNION", "UNION ALL", "INTERSECT", "EXCEPT"]
         if f["setops_all"]:
@@ -1229,9 +1240,9 @@ class Gen:
             sc = [src]
             for i, ty in enumerate(types):
                 e = self.colref(sc, ty) or ("lit", 1 if ty == INT else "x", ty)
-                if self.chance(0.3) and ty == INT:
+                if self.chance(0.3) and ty == INT and not (as_source and self._plain):
                     e = self.int_expr(sc, 1)
-                name = f"u{i + 1}"
+                name = names[i]
                 sq.projs.append((e, name))
                 sq.out.append((name, ty, self.prov(e, sc)))
             if self.chance(0.4):
@@ -1247,6 +1258,9 @@ class Gen:
             q.setops.append((this_op, b))
             q.out = [(n, ty, p | b.out[i][2]) for i, (n, ty, p) in enumerate(q.out)]
         self.tags.add("set:" + op.lower().replace(" ", "-"))
+        if as_source:
+            q.tags = set(self.tags)
+            return q
         if self.chance(0.7):
             keys = [n for n, _, _ in q.out]
             q.order = [(k, self.pick([None, True]), (self.pick(["first", "last"]) if f["nulls_order"] == "explicit" else
